@@ -73,6 +73,7 @@ type Inst struct {
 	Backend  policy.Backend
 	StateDir string
 	Cfg      *Config // last accepted configuration (monitor's copy)
+	Agent    *agent.Agent
 }
 
 var (
@@ -146,7 +147,7 @@ func NewInst(stateDir string, cfg *Config) (*Inst, error) {
 		rm.VerifShutdown()
 		return nil, fmt.Errorf("start: %w", err)
 	}
-	return &Inst{Policy: cfg.Policy, RM: rm, Backend: backend, StateDir: stateDir, Cfg: cfg.Clone()}, nil
+	return &Inst{Policy: cfg.Policy, RM: rm, Backend: backend, StateDir: stateDir, Cfg: cfg.Clone(), Agent: agt}, nil
 }
 
 func (i *Inst) Close() {
